@@ -678,6 +678,14 @@ func c13StackAccessor(w *World, r *Result, role string, fn *ssa.Function, und in
 					}
 				}
 			}
+			// popping by re-slicing: stack[:len(stack)-1]
+			if sl, ok := ins.(*ssa.Slice); ok {
+				if u, ok := sl.X.(*ssa.UnOp); ok {
+					if fa, ok := u.X.(*ssa.FieldAddr); ok {
+						stacks[structFieldName(fa.X.Type(), fa.Field)] = true
+					}
+				}
+			}
 		}
 	}
 	var sl []string
